@@ -1,0 +1,8 @@
+//go:build verif
+
+// Contracts for package protocol, checked by /verif (bfvc). Comment-only.
+package protocol
+
+// C07/C38: protocol IDs are accepted exactly when non-empty valid UTF-8.
+//@ func (ID).Validate
+//@   ensures (ret == nil) <==> (i != "" && utf8Valid(i))
